@@ -9,7 +9,8 @@ from checks.vecstr_common import (LIMIT, SIZE_MAX, W64, parse_header, split_line
 # ASan reports are only classified (exit code), never read: skip symbolisation
 os.environ.setdefault('ASAN_OPTIONS', 'symbolize=0')
 
-LITOPS = {'set': 2, 'insert_str': 3, 'insert_str_n': 3, 'append_str': 2, 'find_str': 3, 'compare_str': 2}
+LITOPS = {'set': 2, 'insert_str': 3, 'insert_str_n': 3, 'append_str': 2, 'find_str': 3, 'compare_str': 2,
+          'append_str_n': 3}
 
 
 def char_ok(w, c):
@@ -84,7 +85,8 @@ class C10(Spec):
                'allocator: harness/halloc.h wrapper with the policy of AllocModel.v']
     assumptions_text = ['source and destination of insert/append/substr/swap are distinct objects',
                         'character codes are non-negative values of the character type (0..127 / 0..2^31-1)',
-                        'literals passed to *_str functions are NUL-terminated; insert_str_n is given at least n characters']
+                        'literals passed to *_str functions are NUL-terminated; insert_str_n / append_str_n are given at least n characters '
+                        '(a larger n is in the domain only when the growth cannot be satisfied: the abort precedes the read)']
 
     # ---------------------------------------------------------------- oracle
     def oracle(self, case, impl):
@@ -106,7 +108,7 @@ class C10(Spec):
                 lit = [int(x) for x in t[LITOPS[name]:]]
                 if not all(char_ok(w, c) for c in lit):
                     return None
-                if name != 'insert_str_n' and 0 in lit:
+                if name not in ('insert_str_n', 'append_str_n') and 0 in lit:
                     return None
             num = [int(x) for x in t[2:]] if name not in LITOPS else [int(x) for x in t[2:LITOPS[name]]]
             s = ref[a]
@@ -122,7 +124,9 @@ class C10(Spec):
                 exp_abort = not g.need(1) or (len(lit) > 0 and not g.need(len(lit) + 1))
                 why = 'growth cannot be satisfied'
                 new = (a, list(lit))
-            elif name in ('insert_ch', 'insert_str', 'insert_str_n', 'insert', 'append', 'append_ch', 'append_str'):
+            elif name in ('insert_ch', 'insert_str', 'insert_str_n', 'insert', 'append', 'append_ch', 'append_str',
+                          'append_str_n'):
+                beyond = False
                 if name == 'insert_ch':
                     pos, cnt, c = num
                     if not char_ok(w, c):
@@ -137,6 +141,13 @@ class C10(Spec):
                     pos, ins = num[0], lit
                 elif name == 'append_str':
                     pos, ins = size, lit
+                elif name == 'append_str_n':
+                    # exactly n characters of the source, NULs included; a count beyond the source is the caller's
+                    # error unless the growth cannot be satisfied (the abort precedes the read of the source)
+                    pos, n = size, num[0]
+                    beyond = n > len(lit)
+                    ins = lit[:n] if not beyond else None
+                    cnt, c = n, 0
                 else:
                     other = num[1] if name == 'insert' else num[0]
                     pos = num[0] if name == 'insert' else size
@@ -149,6 +160,8 @@ class C10(Spec):
                     exp_abort, why = True, 'position %d is beyond the end (size %d)' % (pos, size)
                 elif cnt > 0 and not g.need(size + cnt + 1):
                     exp_abort, why = True, 'growth to %d characters cannot be satisfied' % (size + cnt)
+                elif beyond:
+                    return None
                 elif cnt > 0:
                     new = (a, s[:pos] + (ins if ins is not None else [c] * cnt) + s[pos:])
             elif name == 'erase':
@@ -184,7 +197,9 @@ class C10(Spec):
                     return None
             elif name == 'clear':
                 new = (a, [])
-            elif name == 'at':
+            elif name == 'data':
+                pass                # checked below against the string's own dump line
+            elif name in ('at', 'at_const'):
                 if num[0] >= size:
                     exp_abort, why = True, 'index %d is not below size %d' % (num[0], size)
                 else:
@@ -281,11 +296,45 @@ class C10(Spec):
                     return ('%s:wrong-contents' % name, 'after operation %d (%s): string %d vector count %d, size %d' % (
                         i, op, k, gs['vcount'], gs['size']))
                 vcap[k] = gs['vcap']
+            if name == 'data':
+                p = self._data_problem(outi, got[a], ref[a])
+                if p:
+                    return ('data:' + p[0], 'operation %d (%s) on %s: %s' % (i, op, s, p[1]))
         fin = impl[len(ops)] if len(impl) > len(ops) else '<missing>'
         if fin.split()[:1] != ['fin']:
             return ('fin:no-output', 'no final live-block count (%s)' % fin)
         if fin.split()[1] != '0':
             return ('fin:leak', '%s blocks still live after every string was cleared' % fin.split()[1])
+        return None
+
+    @staticmethod
+    def _data_problem(out, gs, rs):
+        """data(): `1` (NULL) or `0 <block> <offset> [<nul> <chars>]`.  A non-empty string must give a pointer; a
+        pointer must be the start of the string's own storage, where - once the vector holds elements - the reference
+        characters followed by NUL are read."""
+        if not out or out[0] not in (0, 1) or (out[0] == 1 and len(out) != 1) or (out[0] == 0 and len(out) < 3):
+            return ('garbled', 'unparsable result %s' % out)
+        if out[0] == 1:
+            # "If the string is empty, the function may or may not return NULL" (_string.h); that the code returns
+            # NULL exactly when the string owns no storage is checked by the comparison with the model
+            if rs:
+                return ('null-with-contents', 'data() is NULL although the string holds %d characters' % len(rs))
+            return None
+        blk, off = out[1], out[2]
+        if blk < 0:
+            return ('wrong-pointer', 'data() is neither NULL nor inside a live block (the string\'s storage is %s)' % (
+                'block %d' % gs['blk'] if gs['blk'] >= 0 else 'absent'))
+        if blk != gs['blk'] or off != 0:
+            return ('wrong-pointer', 'data() points at offset %d of block %d, the string\'s storage is block %d' % (
+                off, blk, gs['blk']))
+        if gs['vcount'] > 0:
+            if len(out) < 4 or out[3] != 1:
+                return ('not-terminated', 'the %d characters at data() are not followed by NUL%s' % (
+                    len(rs), '' if len(out) > 3 and out[3] == 0 else ' (not readable)'))
+            if out[4:] != rs[:256]:
+                return ('wrong-contents', 'the characters at data() are %s, reference %s' % (out[4:], rs))
+        elif len(out) != 3:
+            return ('garbled', 'unexpected result %s for a string without contents' % out)
         return None
 
     # ---------------------------------------------------------------- generators
@@ -350,7 +399,8 @@ class C10(Spec):
                 b = rnd.choice([x for x in range(ns) if x != a]) if ns > 1 else None
                 k = rnd.choice(['set', 'set', 'insert_ch', 'insert_ch', 'insert_str', 'insert_str_n', 'insert', 'append',
                                 'append_ch', 'append_str', 'erase', 'erase', 'substr', 'substr', 'resize', 'resize',
-                                'reserve', 'swap', 'clear', 'at', 'find_ch', 'find_str', 'find', 'compare', 'compare_str'])
+                                'reserve', 'swap', 'clear', 'at', 'find_ch', 'find_str', 'find', 'compare', 'compare_str',
+                                'append_str_n', 'append_str_n', 'at_const', 'data', 'data'])
                 inrange = rnd.random() < 0.75
                 pos = rnd.randrange(0, size + 1) if inrange else rnd.choice(nums(a))
                 posr = rnd.randrange(0, max(1, size)) if inrange else rnd.choice(nums(a))
@@ -395,6 +445,16 @@ class C10(Spec):
                     op = 'clear %d' % a
                 elif k == 'at':
                     op = 'at %d %d' % (a, posr)
+                elif k == 'at_const':
+                    op = 'at_const %d %d' % (a, posr)
+                elif k == 'data':
+                    op = 'data %d' % a
+                elif k == 'append_str_n':
+                    l = [rnd.choice(alpha) for _ in range(rnd.randrange(0, 5))]
+                    n = rnd.randrange(0, len(l) + 1)
+                    if rnd.random() < 0.12:     # a count that can never be satisfied: aborts before the source is read
+                        n = rnd.choice([x for x in nums(a) if x >= 2 ** 32])
+                    op = 'append_str_n %d %d %s' % (a, n, ' '.join(map(str, l)))
                 elif k == 'find_ch':
                     op = 'find_ch %d %d %d' % (a, rnd.choice(alpha), posr)
                 elif k == 'find_str':
@@ -438,8 +498,14 @@ class C10(Spec):
                 return True
             grown(g, a)
             ref[a] = l
-        elif name in ('insert_ch', 'append_ch', 'insert_str', 'insert_str_n', 'append_str', 'insert', 'append'):
-            if name == 'insert_ch':
+        elif name in ('insert_ch', 'append_ch', 'insert_str', 'insert_str_n', 'append_str', 'insert', 'append',
+                      'append_str_n'):
+            if name == 'append_str_n':
+                l = [int(x) for x in t[3:]]
+                if int(t[2]) > len(l):
+                    return True             # aborts, or outside the domain
+                pos, ins = size, l[:int(t[2])]
+            elif name == 'insert_ch':
                 pos, cnt, c = int(t[2]), int(t[3]), int(t[4])
                 ins = None
             elif name == 'append_ch':
@@ -500,7 +566,7 @@ class C10(Spec):
         elif name == 'clear':
             ref[a] = []
             vcap[a] = 0
-        elif name in ('at', 'find_ch', 'find_str', 'find'):
+        elif name in ('at', 'at_const', 'find_ch', 'find_str', 'find'):
             pos = int(t[3]) if name == 'find_ch' else int(t[2])
             if pos >= size:
                 return True
@@ -522,7 +588,8 @@ def c16_base_cases(tier, seed):
                                           'compare 0 1']),
             (['width %d' % w, 'nstr 2'], ['resize 0 3', 'insert_ch 0 1 2 97', 'substr 0 1 3 1', 'resize 1 6',
                                           'insert_str 1 2 98 98', 'swap 0 1', 'append_str 0 97', 'at 0 0',
-                                          'clear 1', 'set 1 97']),
+                                          'clear 1', 'set 1 97', 'append_str_n 1 2 98 99 100', 'at_const 1 2',
+                                          'data 1', 'data 0']),
             (['width %d' % w, 'nstr 1'], ['reserve 0 2', 'set 0 97', 'append_ch 0 1 98', 'append_ch 0 1 99',
                                           'append_ch 0 4 100', 'erase 0 1 18446744073709551615', 'resize 0 5',
                                           'find_str 0 0 97']),
